@@ -37,6 +37,8 @@ THEOREMS = [
     "Optyx.Props.StateTie.edits_are_source",
     "Optyx.Props.LPFastTie.fastBinop_eq",
     "Optyx.Props.LPFastTie.extractAll_eq",
+    "Optyx.Props.LPFastTie.extractLinearCoefficient_eq",
+    "Optyx.Props.LPFastTie.extractConstantTerm_eq",
     "Optyx.Props.LPFastTie.aligned_iff",
     "Optyx.Props.PinsC08.anchors",
 ]
@@ -987,6 +989,432 @@ def option_histories(rng, rep, n_hist):
         done.append(hseed)
 
 
+# ------------------------------------------------------------------ sibling models on SHARED objects, shifting layouts
+
+
+_BEFORE = ["a", "aux", "b2", "cap", "K", "W0"]                 # sort before every container base name used below
+_AFTER = ["y", "z1", "yield", "zeta", "y10", "z"]              # sort after them
+
+
+def _aux_name(rng, pos, base, elem_names):
+    """a scalar name that sorts before / after / INSIDE the span of the container's element names"""
+    if pos == "before":
+        return rng.choice(_BEFORE + [base])                      # the bare base name sorts before "base[0]"
+    if pos == "after":
+        return rng.choice(_AFTER + [base + "s", base + "_"])     # base + letter sorts after "base[…"
+    return rng.choice(elem_names[:-1] or elem_names) + rng.choice(["s", "_lo", "b"])   # between two elements
+
+
+class SharedObjects:
+    """everything the sibling models of ONE history share: the container (VectorVariable / MatrixVariable), its
+    scalar Variables, view objects made once, expression nodes (c @ x, x @ c, k·x.sum(), (x**1).sum(), per-view
+    combinations, scalar chains) made once per (coefficients, style) and handed out again, and Constraint objects of
+    an `A @ x <= b` block made once"""
+
+    def __init__(self, rng, kind, base, shape, xb):
+        from optyx import MatrixVariable, VectorVariable
+
+        self.kind, self.base, self.xb = kind, base, xb
+        if kind == "matrix":
+            self.x = MatrixVariable(base, shape[0], shape[1], lb=xb[0], ub=xb[1])
+        else:
+            self.x = VectorVariable(base, shape, lb=xb[0], ub=xb[1])
+        self.elems = block_elems(self.x)
+        self.n1 = len(self.elems)
+        self.names = [v.name for v in self.elems]
+        self.views = block_views(rng, self.x, self.n1)           # view OBJECTS kept for the whole history
+        self.nodes = {}
+        self.block = None
+
+    def styles(self, f):
+        st = ["views", "chain"]
+        if self.kind == "vector":
+            st += ["lc", "lc", "lc_right"]
+            if len(set(f)) == 1 and f[0] != 0:
+                st += ["sum", "powersum"]
+        return st
+
+    def node(self, rng, f):
+        """Σ f·x as one expression OBJECT, the same object on every request for the same (f, style)"""
+        style = rng.choice(self.styles(f))
+        key = (tuple(f), style)
+        if key not in self.nodes:
+            x = self.x
+            if style == "lc":
+                e = arr(rng, f) @ x
+            elif style == "lc_right":
+                e = x @ arr(rng, f)
+            elif style == "sum":
+                e = x.sum() if f[0] == 1 else f[0] * x.sum()
+            elif style == "powersum":
+                e = (x ** 1).sum() if f[0] == 1 else (x ** 1).sum() * f[0]
+            elif style == "views":
+                e = None
+                for view, cols in self.views:
+                    ac = [f[j] for j in cols]
+                    t = ac[0] * view.sum() if len(set(ac)) == 1 and ac[0] != 0 and rng.random() < 0.5 \
+                        else np.array(ac) @ view
+                    e = t if e is None else e + t
+            else:
+                e = None
+                for a, v in zip(f, self.elems):
+                    if a != 0:
+                        e = a * v if e is None else e + a * v
+                if e is None:
+                    e = 0.0 * self.elems[0]
+            self.nodes[key] = e
+        return self.nodes[key], style
+
+    def xpart(self, rng, f, k, used):
+        """k · Σ f·x: a shared node or a fresh expression on the shared container"""
+        kf = [k * a for a in f]
+        if rng.random() < 0.55:
+            e, style = self.node(rng, f)
+            used.append("shared-node:" + style)
+            if k == 1:
+                return e
+            if k == -1:
+                return -e if rng.random() < 0.5 else -1 * e
+            return k * e if rng.random() < 0.6 else e * k
+        if rng.random() < 0.5:
+            e, style = self.node(rng, kf)
+            used.append("shared-node:" + style)
+            return e
+        style = rng.choice(["lc", "lc_right", "sum", "views", "chain", "scaled_vec", "lc_shift"])
+        used.append("fresh:" + style)
+        return write_linear(rng, kf, self.x, [], style)
+
+    def block_constraints(self, rng, A, b, fresh):
+        """`A @ x <= b` (vector container): the SAME Constraint objects for every sibling unless `fresh`"""
+        if fresh or self.block is None:
+            cons = arr(rng, A) @ self.x <= np.array(b)
+            cons = list(cons) if isinstance(cons, (list, tuple)) else [cons]
+            if fresh:
+                return cons
+            self.block = cons
+        return self.block
+
+
+def gen_shared_history(rng):
+    """abstract data of one history: a container, 3–5 coefficient forms on it, a feasibility point, an x-only block,
+    and 2–3 sibling models; each model = the container's columns + its OWN auxiliary scalars (names sorting before /
+    after / inside the container's span; the siblings' position patterns differ, their counts are mostly equal)"""
+    kind = rng.choice(["vector", "vector", "vector", "matrix"])
+    if kind == "matrix":
+        base, shape = "m", rng.choice([(2, 2), (2, 3), (3, 2)])
+        n1 = shape[0] * shape[1]
+    else:
+        base, shape = rng.choice(["x", "x", "p"]), rng.choice([2, 3, 3, 4, 4, 5, 6, 11])
+        n1 = shape
+    xb = rng.choice([(0.0, None), (0.0, None), (0.0, 10.0), (-2.0, 5.0), (0.0, 4.0)])
+    forms = []
+    for _ in range(rng.randint(3, 5)):
+        if rng.random() < 0.25:
+            f = [float(rng.choice([1, 1, 2, 3]))] * n1
+        else:
+            f = [float(rng.randint(-2, 4)) for _ in range(n1)]
+            if not any(f):
+                f[rng.randrange(n1)] = 1.0
+        forms.append(f)
+    lo = xb[0] if xb[0] is not None else -3.0
+    hi = xb[1] if xb[1] is not None else 6.0
+    pt = [float(rng.randint(int(lo), int(hi))) for _ in range(n1)]
+    blk = rng.sample(range(len(forms)), rng.randint(2, min(3, len(forms))))
+    block = ([forms[i] for i in blk], [sum(a * v for a, v in zip(forms[i], pt)) + rng.randint(0, 4) for i in blk])
+    k_common = rng.choice([1, 1, 1, 2, 2])
+    patterns = {1: [("before",), ("after",), ("inside",)],
+                2: [("before", "before"), ("before", "after"), ("after", "after"), ("inside", "after"),
+                    ("before", "inside")]}[k_common]
+    n_sib = rng.choice([2, 2, 3])
+    pats = rng.sample(patterns, min(n_sib, len(patterns)))
+    sibs = []
+    for i in range(n_sib):
+        pat = list(pats[i % len(pats)])
+        if rng.random() < 0.15:                                 # contrast: a sibling with another number of columns
+            pat = [rng.choice(["before", "after", "inside"]) for _ in range(rng.choice([0, 1, 2, 3]))]
+        sibs.append({"pattern": pat})
+    return {"kind": kind, "base": base, "shape": shape, "n1": n1, "xb": xb, "forms": forms, "pt": pt, "block": block,
+            "sibs": sibs}
+
+
+_AUX_BOUNDS = [(1.0, 5.0), (0.0, 3.0), (-2.0, 4.0), (0.0, 1.0), (1.0, 5.0)]
+
+
+def _new_aux(rng, h, so, pattern, taken):
+    from optyx import Variable
+
+    out = []
+    for pos in pattern:
+        for _ in range(50):
+            nm = _aux_name(rng, pos, h["base"], so.names)
+            if nm not in taken and nm not in so.names:
+                break
+        else:
+            nm = f"{pos}{len(taken)}"
+        taken.add(nm)
+        lb, ub = rng.choice(_AUX_BOUNDS)
+        out.append({"name": nm, "var": Variable(nm, lb=lb, ub=ub), "bounds": (lb, ub), "pos": pos})
+    return out
+
+
+def _aux_terms(rng, e, coeffs, aux):
+    for d, a in zip(coeffs, aux):
+        if d == 0:
+            continue
+        r = rng.random()
+        if d == -1 and r < 0.5:
+            e = e - a["var"]
+        elif d == 1 and r < 0.5:
+            e = e + a["var"] if rng.random() < 0.7 else a["var"] + e
+        else:
+            e = e + d * a["var"] if r < 0.8 else d * a["var"] + e
+    return e
+
+
+def _pick_form(rng, h):
+    i = rng.randrange(len(h["forms"]))
+    return i, rng.choice([1, 1, -1, 2, 3, -2])
+
+
+def _write_objective(rng, h, so, sib, used):
+    """(re-)declare the sibling's objective from its abstract data: k·(form on the container) + own scalars + c0"""
+    e = so.xpart(rng, h["forms"][sib["obj_form"]], sib["obj_k"], used)
+    e = _aux_terms(rng, e, sib["c_con"], sib["con_aux"])
+    e = _aux_terms(rng, e, sib["c_obj"], sib["obj_aux"])
+    if sib["c0"] != 0:
+        e = e + sib["c0"]
+    P = sib["P"]
+    (P.maximize if sib["is_max"] else P.minimize)(e)
+
+
+def _gen_objective(rng, h, sib):
+    sib["obj_form"], sib["obj_k"] = _pick_form(rng, h)
+    sib["c_con"] = [float(rng.choice([-2, -1, 0, 1, 2])) for _ in sib["con_aux"]]
+    sib["c_obj"] = [float(rng.choice([-3, -2, -1, 1, 2, 3])) for _ in sib["obj_aux"]]
+    sib["c0"] = rng.choice([0.0, 0.0, 5.0, -2.5])
+    sib["is_max"] = rng.random() < 0.5
+
+
+def build_sibling(rng, h, so, sib, used):
+    """one sibling Problem on the shared container; fills the sibling's abstract data (its model)"""
+    from optyx import Problem
+
+    taken = set()
+    aux = _new_aux(rng, h, so, sib["pattern"], taken)
+    n_con = rng.randint(0, len(aux)) if rng.random() < 0.5 else 0      # scalars that also occur in constraint rows
+    rng.shuffle(aux)
+    sib["con_aux"], sib["obj_aux"] = aux[:n_con], aux[n_con:]
+    sib["taken"] = taken
+    sib["P"] = P = Problem()
+    _gen_objective(rng, h, sib)
+    _write_objective(rng, h, so, sib, used)
+    sib["rows"] = []                                            # (form index, k, aux coefficients on con_aux, sense, rhs)
+    sib["block"] = kindblock = h["kind"] == "vector" and rng.random() < 0.6
+    if kindblock:
+        for c_ in so.block_constraints(rng, h["block"][0], h["block"][1], fresh=rng.random() < 0.4):
+            P.subject_to(c_)
+        used.append("block")
+    pt_aux = [float(rng.randint(int(a["bounds"][0]), int(a["bounds"][1]))) for a in sib["con_aux"]]
+    for _ in range(rng.randint(0 if kindblock else 1, 3)):
+        fi, k = _pick_form(rng, h)
+        d = [float(rng.choice([-2, -1, 0, 1, 1, 2])) for _ in sib["con_aux"]]
+        sense = rng.choice(["<=", "<=", ">=", "=="])
+        val = k * sum(a * v for a, v in zip(h["forms"][fi], h["pt"])) + sum(a * v for a, v in zip(d, pt_aux))
+        if rng.random() < 0.8:
+            rhs = val + (rng.randint(0, 3) if sense == "<=" else -rng.randint(0, 3) if sense == ">=" else 0)
+        else:
+            rhs = float(rng.randint(-6, 12))
+        rhs = float(rhs)
+        sib["rows"].append((fi, k, d, sense, rhs))
+        lhs = so.xpart(rng, h["forms"][fi], k, used)
+        form = rng.random()
+        if form < 0.5 or not any(d):
+            lhs = _aux_terms(rng, lhs, d, sib["con_aux"])
+            con = (lhs <= rhs) if sense == "<=" else (lhs >= rhs) if sense == ">=" else lhs.eq(rhs)
+        elif form < 0.75:
+            lhs = _aux_terms(rng, lhs, d, sib["con_aux"]) - rhs
+            con = (lhs <= 0) if sense == "<=" else (lhs >= 0) if sense == ">=" else lhs.eq(0)
+        else:                                                   # the scalars on the right-hand side
+            rh = None
+            for dv, a_ in zip(d, sib["con_aux"]):
+                if dv != 0:
+                    rh = (-dv) * a_["var"] if rh is None else rh + (-dv) * a_["var"]
+            rh = rh + rhs if rng.random() < 0.6 else rhs + rh
+            con = (lhs <= rh) if sense == "<=" else (lhs >= rh) if sense == ">=" else lhs.eq(rh)
+        P.subject_to(con)
+
+
+def sibling_model(h, sib):
+    """the sibling's model as plain numbers, columns = container elements, then its own scalars — assembled from
+    the generator's abstract data only"""
+    n1 = h["n1"]
+    aux = sib["con_aux"] + sib["obj_aux"]
+    nc, no = len(sib["con_aux"]), len(sib["obj_aux"])
+    c = [sib["obj_k"] * a + 0.0 for a in h["forms"][sib["obj_form"]]] + list(sib["c_con"]) + list(sib["c_obj"])
+    rows = []
+    if sib["block"]:
+        for f, r in zip(*h["block"]):
+            rows.append((list(f) + [0.0] * (nc + no), "<=", float(r)))
+    for fi, k, d, sense, rhs in sib["rows"]:
+        rows.append(([k * a + 0.0 for a in h["forms"][fi]] + list(d) + [0.0] * no, sense, rhs))
+    return {"n1": n1, "n2": nc + no, "c": c, "c0": sib["c0"], "is_max": sib["is_max"], "rows": rows,
+            "bounds": [tuple(h["xb"])] * n1 + [a["bounds"] for a in aux], "layout": "shared", "extreme": False,
+            "aux_names": [a["name"] for a in aux]}
+
+
+def shared_history(rng, rep, hseed=None):
+    """ONE history: 2–3 sibling Problems over the SAME container object (and the same views, expression nodes,
+    Constraint objects, scalar Variables), each with its own auxiliary scalars so that the container's columns sit
+    at DIFFERENT places of layouts with (mostly) the SAME number of columns; then an interleaving of
+        solve (any LP method) / public LinearProgramExtractor().extract / re-declare the objective of one Problem so
+        that its objective-only scalars leave and others enter (same count, other positions) / flip the sense with
+        the same objective object.
+    Every solve is judged against the independently assembled LP of ITS model (verdict and objective value), every
+    extraction against the abstract model, exactly."""
+    from optyx.analysis import LinearProgramExtractor
+
+    log = []
+
+    def fail(what, sib, **more):
+        m = sibling_model(h, sib)
+        f = {"what": what, "family": "shared-layout", "hseed": hseed, "container": [h["kind"], h["base"], h["shape"]],
+             "sibling": sib["tag"], "columns": so.names + m["aux_names"], "model": m, "history": list(log)}
+        f.update(more)
+        rep.oracle_failures.append(f)
+
+    h = gen_shared_history(rng)
+    so = SharedObjects(rng, h["kind"], h["base"], h["shape"], h["xb"])
+    used = []
+    sibs = h["sibs"]
+    for i, sib in enumerate(sibs):
+        sib["tag"] = f"S{i}"
+    lazy = rng.random() < 0.4
+    built = set()
+
+    def ensure(sib):
+        if sib["tag"] not in built:
+            build_sibling(rng, h, so, sib, used)
+            built.add(sib["tag"])
+            log.append({"build": sib["tag"], "own scalars": [a["name"] for a in sib["con_aux"] + sib["obj_aux"]]})
+
+    if not lazy:
+        for sib in rng.sample(sibs, len(sibs)):
+            ensure(sib)
+
+    def extract(sib):
+        m = sibling_model(h, sib)
+        try:
+            with warnings.catch_warnings():
+                warnings.simplefilter("ignore")
+                d = LinearProgramExtractor().extract(sib["P"])
+            err = lpdata_vs_model(m, d, so.names + m["aux_names"])
+        except Exception as ex:  # noqa: BLE001
+            err = f"extract raised {type(ex).__name__}: {ex}"[:200]
+        rep.evaluations += 1
+        log.append({"extract": sib["tag"]})
+        if err:
+            fail("the LP extracted from a Problem that shares its vector / matrix with sibling Problems is not the "
+                 "model that was written: " + err, sib)
+            return False
+        return True
+
+    def solve(sib, method):
+        m = sibling_model(h, sib)
+        hm = method if method.startswith("highs") else "highs"
+        rs, ro = reference(m, hm)
+        with LinprogSpy() as spy:
+            try:
+                s = solve_one(sib["P"], method)
+            except Exception as ex:  # noqa: BLE001
+                fail(f"solve(method={method}) raised {type(ex).__name__}: {ex}"[:300], sib, method=method)
+                return False
+        rep.evaluations += 1
+        log.append({"solve": sib["tag"], "method": method, "got": [s.status.name, s.objective_value]})
+        if rs not in DEFINITE:
+            rep.skipped["reference-" + rs] = rep.skipped.get("reference-" + rs, 0) + 1
+            return True
+        rep.histogram["shared-layout ref:" + rs] = rep.histogram.get("shared-layout ref:" + rs, 0) + 1
+        if _same(s.status.name, s.objective_value, rs, ro):
+            return True
+        if {s.status.name, rs} == {"INFEASIBLE", "UNBOUNDED"} and \
+                reference(dict(m, c=[0.0] * len(m["c"]), is_max=False, c0=0.0), hm)[0] == "INFEASIBLE":
+            # an infeasible model whose objective also has an improving ray: which of the two verdicts HiGHS gives
+            # depends on the column order; the exact extraction oracle judges this Problem instead
+            rep.skipped["infeasible-with-ray"] = rep.skipped.get("infeasible-with-ray", 0) + 1
+            return extract(sib)
+        if gave_up_on_these_rows(spy):
+            rep.skipped["solver-numerical-status"] = rep.skipped.get("solver-numerical-status", 0) + 1
+            return True
+        fail("a Problem that shares its vector / matrix (views, expression nodes, constraints) with sibling Problems "
+             "of another column layout disagrees with the independently assembled LP of its own model", sib,
+             method=method, optyx=[s.status.name, s.objective_value], reference=[rs, ro])
+        return False
+
+    def redeclare(sib):
+        """the objective-only scalars leave, others enter (mostly the same count, other positions)"""
+        old = sib["obj_aux"]
+        pat = [rng.choice(["before", "after", "inside"]) for _ in old]
+        if rng.random() < 0.2:
+            pat = pat[:-1] if pat and rng.random() < 0.5 else pat + [rng.choice(["before", "after"])]
+        if old and rng.random() < 0.8 and len(pat) == len(old):
+            # deliberately the other side of the container for at least one scalar
+            j = rng.randrange(len(old))
+            pat[j] = {"before": "after", "after": "before", "inside": rng.choice(["before", "after"])}[old[j]["pos"]]
+        taken = set(a["name"] for a in sib["con_aux"]) | set(a["name"] for a in old)
+        sib["obj_aux"] = _new_aux(rng, h, so, pat, taken)
+        _gen_objective(rng, h, sib)
+        _write_objective(rng, h, so, sib, used)
+        log.append({"re-declare objective": sib["tag"], "scalars leaving": [a["name"] for a in old],
+                    "scalars entering": [a["name"] for a in sib["obj_aux"]]})
+
+    def flip_sense(sib):
+        sib["is_max"] = not sib["is_max"]
+        P = sib["P"]
+        (P.maximize if sib["is_max"] else P.minimize)(P.objective)
+        log.append({"flip sense, same objective object": sib["tag"]})
+
+    events = []
+    for sib in sibs:
+        events.append(("solve", sib))
+        if rng.random() < 0.4:
+            events.append(("extract", sib))
+    for _ in range(rng.randint(2, 5)):
+        events.append((rng.choice(["solve", "solve", "extract", "redeclare", "redeclare", "flip"]), rng.choice(sibs)))
+    rng.shuffle(events)
+    for ev, sib in events:
+        ensure(sib)
+        if ev == "solve":
+            ok = solve(sib, rng.choice(METHODS))
+        elif ev == "extract":
+            ok = extract(sib)
+        else:
+            (redeclare if ev == "redeclare" else flip_sense)(sib)
+            ok = solve(sib, rng.choice(METHODS)) if rng.random() < 0.7 else extract(sib)
+        if not ok:
+            return
+    # at the end: every sibling once more, both observers
+    for sib in rng.sample(sibs, len(sibs)):
+        ensure(sib)
+        if not (solve(sib, rng.choice(["auto", rng.choice(METHODS)])) and extract(sib)):
+            return
+    for st in used:
+        rep.histogram["shared-layout style:" + st] = rep.histogram.get("shared-layout style:" + st, 0) + 1
+    counts = sorted(len(s_["con_aux"]) + len(s_["obj_aux"]) for s_ in sibs)
+    rep.histogram["shared-layout siblings with equal column counts"] = \
+        rep.histogram.get("shared-layout siblings with equal column counts", 0) + (1 if len(set(counts)) < len(counts) else 0)
+    rep.nontrivial.add(("shared-layout", hseed))
+
+
+def shared_histories(rng, rep, n_hist):
+    for _ in range(n_hist):
+        hseed = rng.randrange(1 << 40)
+        before = len(rep.oracle_failures)
+        shared_history(core.Rng(hseed), rep, hseed)
+        rep.histogram["shared-layout history"] = rep.histogram.get("shared-layout history", 0) + 1
+        if len(rep.oracle_failures) > before:
+            return                                  # one concrete input is enough
+
+
 def run(ctx) -> core.Report:
     rng = ctx["rng"]
     thorough = ctx["tier"] == "thorough" or ctx["escalate"]
@@ -1002,6 +1430,7 @@ def run(ctx) -> core.Report:
     compare_lean(rep, lines, metas)
     dtype_cover(rep)
     known_matrix_sum(rep)
+    shared_histories(rng, rep, 900 if thorough else 150)
     # last: these solves pass solver options — if anything they pass outlives its call, nothing above is contaminated
     option_histories(rng, rep, 600 if thorough else 100)
     return rep
@@ -1097,6 +1526,9 @@ def known_matrix_sum(rep):
 def search(ctx, rep):
     rng = core.Rng(ctx["seed"] + 104729)
     r2 = core.Report()
+    shared_histories(rng, r2, 600)
+    if r2.oracle_failures:
+        return r2.oracle_failures[0]
     option_histories(rng, r2, 300)
     if r2.oracle_failures:
         return r2.oracle_failures[0]
@@ -1118,6 +1550,13 @@ def replay(payload) -> bool:
             for h in f.get("earlier_histories_of_the_process", []):
                 option_history(core.Rng(h), core.Report(), h)
             option_history(core.Rng(f["hseed"]), rep, f["hseed"])
+        if rep.oracle_failures:
+            print({k: v for k, v in rep.oracle_failures[0].items() if k != "history"})
+            return False
+        return True
+    if f.get("family") == "shared-layout":
+        rep = core.Report()
+        shared_history(core.Rng(f["hseed"]), rep, f["hseed"])       # in a fresh process
         if rep.oracle_failures:
             print({k: v for k, v in rep.oracle_failures[0].items() if k != "history"})
             return False
